@@ -451,6 +451,16 @@ def codec_decls():
          "    #[difference(skip)]\n    pub a: T,\n    pub b: U,\n    #[difference(skip)]\n    pub c: Vec<T>,\n",
          "impl<T: Mk + Clone + PartialEq + std::fmt::Debug, U: Mk + Clone + PartialEq + std::fmt::Debug> Mk for K8<T, U> { fn mk(s: u64) -> Self { K8 { a: Mk::mk(s), b: Mk::mk(s + 1), c: Mk::mk(s + 2) } } }\n",
          "            if r.b != b.b || r.a != a.a || r.c != a.c { return Err(format!(\"round trip: {:?} != {:?}\", r, b)); }\n")
+    # two exposed structs side by side in ONE module, both with a `recurse` field of the same name (and a same-named Option one)
+    pair = ("#[cfg(feature = \"ns\")] #[allow(unused_imports)] use nanoserde::{SerBin, DeBin};\n#[derive(Debug, Clone, PartialEq, Difference)]\n#[cfg_attr(feature = \"ns\", derive(nanoserde::SerBin, nanoserde::DeBin))]\n#[cfg_attr(feature = \"sd\", derive(serde::Serialize, serde::Deserialize))]\npub struct K9N { pub x: i64 }\n"
+            "impl Mk for K9N { fn mk(s: u64) -> Self { K9N { x: Mk::mk(s) } } }\n"
+            "#[derive(Debug, Clone, PartialEq, Difference)]\n#[difference(expose)]\npub struct K9A { #[difference(recurse)] pub inner: K9N, #[difference(recurse)] pub opt: Option<K9N>, pub k: u8 }\n"
+            "#[derive(Debug, Clone, PartialEq, Difference)]\n#[difference(expose = \"K9BDelta\")]\npub struct K9B { #[difference(recurse)] pub inner: K9N, #[difference(recurse)] pub opt: Option<K9N>, pub j: i64 }\n"
+            "pub fn test() -> Result<(), String> {\n    for s in 0..6u64 {\n        let a = K9A { inner: Mk::mk(s), opt: Mk::mk(s + 1), k: Mk::mk(s) }; let b = K9A { inner: Mk::mk(s + 2), opt: Mk::mk(s + 3), k: Mk::mk(s + 4) };\n"
+            "        if a.clone().apply(a.diff(&b)) != b { return Err(format!(\"K9A round trip\")); }\n"
+            "        let c = K9B { inner: Mk::mk(s), opt: Mk::mk(s + 1), j: Mk::mk(s) }; let d = K9B { inner: Mk::mk(s + 2), opt: Mk::mk(s + 3), j: Mk::mk(s + 4) };\n"
+            "        if c.clone().apply(c.diff(&d)) != d { return Err(format!(\"K9B round trip\")); }\n    }\n    Ok(())\n}\n")
+    out.append(('K9', pair, ['two_exposed_structs_in_one_module']))
     # a generic enum: its diff carries the whole new value, so the enum itself derives the codecs
     e = ("#[cfg(feature = \"ns\")] #[allow(unused_imports)] use nanoserde::{SerBin, DeBin};\n#[derive(Debug, Clone, PartialEq, Difference)]\n#[cfg_attr(feature = \"ns\", derive(nanoserde::SerBin, nanoserde::DeBin))]\n#[cfg_attr(feature = \"sd\", derive(serde::Serialize, serde::Deserialize))]\n"
          "pub enum K3<T: Clone + PartialEq + std::fmt::Debug> { A, B(T), C { x: T, y: i64 }, D(i64, bool) }\n"
